@@ -80,6 +80,9 @@ def case(cid, rng, cfg):
     elif r_ < 0.7:
         sel = sel + [sel[int(rng.integers(len(sel)))]]        # a repeated value
     alphas = [grid[int(i)] for i in sel]
+    use_default_grid = (not rel) and rng.random() < 0.15
+    if use_default_grid:
+        alphas = [(1, 10), (1, 1), (10, 1)]           # the documented default grid (0.1, 1.0, 10.0), omitted half of the time
     scoring = {"mse": None if rng.random() < 0.5 else "neg_mean_squared_error", "rmse": "neg_root_mean_squared_error", "r2": "r2"}[cfg["scorer"]]
     c = {"id": cid, "method": cfg["method"], "scorer": cfg["scorer"], "cvkind": cfg["cv"], "njobs": cfg["njobs"], "kind": kind,
          "X": Xi.tolist(), "Y": Yi.tolist(), "f1": [int(i) + 1 for i in f1], "f2": [int(i) + 1 for i in f2], "raised": False,
@@ -99,7 +102,7 @@ def case(cid, rng, cfg):
     try:
         with warnings.catch_warnings():
             warnings.simplefilter("ignore")
-            mdl = core.mk(Ridge2FoldCV, alphas=[a / b for a, b in alphas], alpha_type=cfg["atype"], regularization_method=cfg["method"], cv=cvarg,
+            mdl = core.mk(Ridge2FoldCV, alphas=(0.1, 1.0, 10.0) if use_default_grid else [a / b for a, b in alphas], alpha_type=cfg["atype"], regularization_method=cfg["method"], cv=cvarg,
                                scoring=scoring, n_jobs=None if cfg["njobs"] == 1 else 2, **kw).fit(Xfit, Y if p > 1 else Y)
         c["cv"] = fq(mdl.cv_values_)
         c["best_idx"] = int(np.argmin(np.abs(np.asarray([a / b for a, b in alphas]) - mdl.alpha_))) + 1
@@ -152,7 +155,7 @@ def gen(args):
     wid, cfgs, sd, reps = args
     rng = np.random.default_rng([sd, wid, 1010])
     out = []
-    for k, cfg in cfgs:
+    for k, cfg in core.timed(cfgs):
         for r in range(reps):
             c = case("c%d-%d" % (k, r), rng, cfg)
             if c is not None:
